@@ -5,7 +5,7 @@
    Statements only; proofs are in Proofs/RouteProofs.v and
    Proofs/C17PublishProofs.v. *)
 From Coq Require Import ZArith List Bool Permutation.
-From V Require Import Bytes StrGo Route RouteProofs C17Publish C17PublishProofs.
+From V Require Import Val Bytes StrGo Route RouteProofs C17Publish C17PublishProofs RunC17 RunC17Publish C17RunProofs.
 Import ListNotations.
 
 (* the implementation's lookup (loop over the map in any order) equals the specification *)
@@ -87,7 +87,7 @@ Print Assumptions C17_get_or_create_is_spec.
 (* (a) a stream registered under the canonical path is returned; nothing is created, the state is unchanged *)
 Theorem C17_registered_stream_is_returned : forall url_ok fs st p sid,
   reg_get (ps_reg st) (canonical_path p) = Some sid ->
-  pstep url_ok fs st (PReq p) = (st, POReq (GExisting sid) (Some sid) []).
+  pstep url_ok fs st (PReq p) = (st, POReq (GExisting sid) (Some sid) [] (ps_reg st)).
 Proof. exact fast_path_step. Qed.
 Print Assumptions C17_registered_stream_is_returned.
 
@@ -134,37 +134,74 @@ Theorem C17_table_is_map_of_route_ops : forall url_ok fs ops st m,
 Proof. exact table_is_map_of_route_ops. Qed.
 Print Assumptions C17_table_is_map_of_route_ops.
 
-(* (e) publish path = lookup path: after a request has created (and so registered) a stream, a request
-   for the same canonical path in any spelling returns that stream and creates nothing *)
-Theorem C17_created_stream_is_found_again : forall url_ok fs st p q lp url i keep st1 sid seen,
-  pinv st = true ->
-  pstep url_ok fs st (PReq p) = (st1, POReq (GCreated lp url i keep) sid seen) ->
+(* the factory contract: a factory publishes under exactly the canonical form of its localPath argument.
+   It holds for a factory that hands localPath to media.NewStream, and for the modelled RTSP factory:
+   NewPullClient's path normalisation is CanonicalPath and nothing else (its fall-back to the path of the
+   remote URL is dead code, its url.Parse only validates), whatever url.Parse says about the remote URL *)
+Theorem C17_pull_client_path_is_canonical : forall url_path lp url,
+  pull_client_path url_path lp url = canonical_path lp.
+Proof. exact pull_client_path_is_canonical. Qed.
+Print Assumptions C17_pull_client_path_is_canonical.
+
+Theorem C17_factory_contract : forall url_path can ok,
+  honest {| f_can := can; f_ok := ok; f_real := true; f_key := rtsp_key url_path |}.
+Proof. exact rtsp_factory_contract. Qed.
+Print Assumptions C17_factory_contract.
+
+Theorem C17_newstream_factory_contract : forall can ok real,
+  honest {| f_can := can; f_ok := ok; f_real := real; f_key := newstream_key |}.
+Proof. exact newstream_honest. Qed.
+Print Assumptions C17_newstream_factory_contract.
+
+(* (e) publish path = lookup path, composed with the contract: after a request has made a factory create
+   (and so register) a stream, the registry is the old one with exactly that stream put under the canonical
+   requested path — no other key appears, streams under other keys survive — and a request for the same
+   canonical path in any spelling returns that stream and creates nothing *)
+Theorem C17_created_stream_is_found_again : forall url_ok fs st p q lp url i keep st1 sid seen reg,
+  pinv st = true -> Forall honest fs ->
+  pstep url_ok fs st (PReq p) = (st1, POReq (GCreated lp url i keep) sid seen reg) ->
   canonical_path q = canonical_path p ->
   sid = Some (ps_next st) /\
+  reg = ps_reg st1 /\ ps_reg st1 = reg_put (ps_reg st) (canonical_path p) (ps_next st) /\
   reg_get (ps_reg st1) (canonical_path p) = Some (ps_next st) /\
-  pstep url_ok fs st1 (PReq q) = (st1, POReq (GExisting (ps_next st)) (Some (ps_next st)) []).
+  (forall k, bytes_eqb (canonical_path p) k = false -> reg_get (ps_reg st1) k = reg_get (ps_reg st) k) /\
+  pstep url_ok fs st1 (PReq q) = (st1, POReq (GExisting (ps_next st)) (Some (ps_next st)) [] (ps_reg st1)).
 Proof. exact created_then_found. Qed.
 Print Assumptions C17_created_stream_is_found_again.
 
 Theorem C17_published_stream_is_found : forall url_ok fs st p q,
   canonical_path q = canonical_path p ->
   let st1 := fst (pstep url_ok fs st (PPublish p)) in
-  pstep url_ok fs st1 (PReq q) = (st1, POReq (GExisting (ps_next st)) (Some (ps_next st)) []).
+  pstep url_ok fs st1 (PReq q) = (st1, POReq (GExisting (ps_next st)) (Some (ps_next st)) [] (ps_reg st1)).
 Proof. exact published_then_found. Qed.
 Print Assumptions C17_published_stream_is_found.
 
 (* the decidable oracle applied to the implementation's answers accepts the model on every
-   well-formed history (route URLs non-empty), for every factory list *)
-Theorem C17_publish_model_passes : forall url_ok fs ops st,
+   well-formed history (route URLs non-empty), for every list of factories that keep the contract *)
+Theorem C17_publish_model_passes : forall url_ok fs ops, Forall honest fs -> forall st,
   forallb (pop_wf url_ok) ops = true -> pinv st = true ->
   ok_phist url_ok fs st ops (snd (prun url_ok fs st ops)) = true.
 Proof. exact publish_model_passes. Qed.
 Print Assumptions C17_publish_model_passes.
 
-(* ... and an answer the oracle accepts for a request is the specification's answer *)
-Theorem C17_publish_oracle_sound : forall url_ok fs st p got sid seen ops outs,
-  ok_phist url_ok fs st (PReq p :: ops) (POReq got sid seen :: outs) = true ->
-  got = spec_goc (ps_reg st) (ps_tbl st) fs p.
+(* instance used by the check: the factories decoded from a case of the "publish" stream (the modelled RTSP
+   factory, NewStream-based recording fakes) keep the contract, so the oracle accepts the model on every case *)
+Theorem C17_publish_run_passes : forall c,
+  forallb (pop_wf url_ok_all) (c17p_ops c) = true ->
+  ok_phist url_ok_all (c17p_fs c) pinit (c17p_ops c)
+    (snd (prun url_ok_all (c17p_fs c) pinit (c17p_ops c))) = true.
+Proof. exact run_model_passes. Qed.
+Print Assumptions C17_publish_run_passes.
+
+(* ... and what the oracle accepts for a request is the specification's answer and the specification's
+   registry: the old one, with the created stream (if any) put under the canonical requested path *)
+Theorem C17_publish_oracle_sound : forall url_ok fs st p got sid seen reg ops outs,
+  ok_phist url_ok fs st (PReq p :: ops) (POReq got sid seen reg :: outs) = true ->
+  got = spec_goc (ps_reg st) (ps_tbl st) fs p /\
+  reg = match got with
+        | GCreated _ _ _ _ => reg_put (ps_reg st) (canonical_path p) (ps_next st)
+        | _ => ps_reg st
+        end.
 Proof. exact oracle_sound_request. Qed.
 Print Assumptions C17_publish_oracle_sound.
 
@@ -179,22 +216,47 @@ Theorem C17_publish_unstable_fixed :
   let st := {| ps_reg := []; ps_tbl := unstable_tbl; ps_next := 0 |} in
   pinv st = true /\ req_stable unstable_req = true /\
   let st1 := fst (pstep (fun _ => true) [any_factory] st (PReq unstable_req)) in
-  snd (pstep (fun _ => true) [any_factory] st (PReq unstable_req)) = POReq (GCreated [47; 97] [117] 0 true) (Some 0) [] /\
-  snd (pstep (fun _ => true) [any_factory] st1 (PReq unstable_req)) = POReq (GExisting 0) (Some 0) [].
+  snd (pstep (fun _ => true) [any_factory] st (PReq unstable_req)) =
+    POReq (GCreated [47; 97] [117] 0 true) (Some 0) [] [([47; 97], 0)] /\
+  snd (pstep (fun _ => true) [any_factory] st1 (PReq unstable_req)) =
+    POReq (GExisting 0) (Some 0) [] [([47; 97], 0)].
 Proof. exact publish_unstable_fixed. Qed.
 Print Assumptions C17_publish_unstable_fixed.
 
-(* non-vacuity: directory route "/cam/" -> "r/x"; factories: one that refuses everything, one that
-   accepts; the request " Cam//B" is well-formed, creates "/cam/b" from "r/x/b" with the SECOND factory
-   and an idle-close task (keep = false); the request "/cam/./b" then finds that stream *)
+(* the contract hypothesis is needed: a factory that takes its publish path from a parsed URL (everything from
+   '#' dropped).  Directory route "/c/" -> "u", somebody's stream 0 live under "/c/d", request "/c/d#2": the
+   factory is handed the right localPath and URL, but publishes under "/c/d" — stream 0 is replaced, "/c/d#2"
+   stays unregistered, the same request pulls again; the oracle rejects the history *)
+Theorem C17_contract_needed_refuted :
+  let st := {| ps_reg := [([47;99;47;100], 0)]; ps_next := 1;
+               ps_tbl := [ {| r_pat := [47;99;47]; r_url := [117]; r_keep := true |} ] |} in
+  let req := [47;99;47;100;35;50] in
+  pinv st = true /\ ~ honest cutting_factory /\
+  let st1 := fst (pstep (fun _ => true) [cutting_factory] st (PReq req)) in
+  snd (pstep (fun _ => true) [cutting_factory] st (PReq req)) =
+    POReq (GCreated req [117;47;100;35;50] 0 true) (Some 1) [[117;47;100;35;50]] [([47;99;47;100], 1)] /\
+  snd (pstep (fun _ => true) [cutting_factory] st1 (PReq req)) =
+    POReq (GCreated req [117;47;100;35;50] 0 true) (Some 2) [[117;47;100;35;50]] [([47;99;47;100], 2)] /\
+  ok_phist (fun _ => true) [cutting_factory] st [PReq req]
+    (snd (prun (fun _ => true) [cutting_factory] st [PReq req])) = false.
+Proof. exact contract_needed_refuted. Qed.
+Print Assumptions C17_contract_needed_refuted.
+
+(* non-vacuity: directory route "/cam/" -> "r/x"; factories (both keep the contract): one that refuses
+   everything, one that accepts; the request " Cam//B#2" is well-formed, creates "/cam/b#2" from "r/x/b#2" with the
+   SECOND factory and an idle-close task (keep = false), registered under "/cam/b#2"; the request "/cam/./b#2"
+   then finds that stream *)
 Example C17_publish_nonvacuous :
-  let never := {| f_can := fun _ => false; f_ok := fun _ _ => true; f_real := false |} in
+  let never := {| f_can := fun _ => false; f_ok := fun _ _ => true; f_real := false; f_key := newstream_key |} in
   let st := {| ps_reg := []; ps_next := 0;
                ps_tbl := [ {| r_pat := [47;99;97;109;47]; r_url := [114;47;120]; r_keep := false |} ] |} in
-  let ops := [PReq [32;67;97;109;47;47;66]; PReq [47;99;97;109;47;46;47;98]; PAll] in
+  let ops := [PReq [32;67;97;109;47;47;66;35;50]; PReq [47;99;97;109;47;46;47;98;35;50]; PAll] in
+  Forall honest [never; any_factory] /\
   forallb (pop_wf (fun _ => true)) ops = true /\ pinv st = true /\
   snd (prun (fun _ => true) [never; any_factory] st ops) =
-    [ POReq (GCreated [47;99;97;109;47;98] [114;47;120;47;98] 1 false) (Some 0) [];
-      POReq (GExisting 0) (Some 0) [];
+    [ POReq (GCreated [47;99;97;109;47;98;35;50] [114;47;120;47;98;35;50] 1 false) (Some 0) [] [([47;99;97;109;47;98;35;50], 0)];
+      POReq (GExisting 0) (Some 0) [] [([47;99;97;109;47;98;35;50], 0)];
       POAll (ps_tbl st) ].
-Proof. vm_compute. auto. Qed.
+Proof.
+  split; [repeat constructor; intros lp url; reflexivity|]. vm_compute. auto.
+Qed.
